@@ -25,6 +25,9 @@ pub enum Damage {
     Truncate(u16),
     /// flip one byte at per-mille of the length
     Flip(u16, u8),
+    /// not a damage: an empty BGZF member (the EOF marker block) inserted at the member boundary
+    /// selected per-mille — the valid `cat a.bgz b.bgz` shape (BGZF based files only)
+    EmptyMember(u16),
 }
 
 #[derive(Clone, Debug, Serialize, Deserialize)]
@@ -73,7 +76,18 @@ fn check_reader(name: &'static str, c: &Case) -> Verdict {
             }
             true
         }
+        Damage::EmptyMember(sel) => {
+            if drv.is_bgzf() {
+                if let Some(b) = crate::oracle::bgzf_walk::with_empty_member(&bytes, *sel) {
+                    bytes = b;
+                }
+            }
+            false
+        }
     };
+    if let Some(p) = std::env::var_os("NV_C16_DUMP") {
+        let _ = std::fs::write(p, &bytes);
+    }
     let data = Arc::new(bytes);
     let opts = ReadOpts { max_events: 50_000, ..ReadOpts::default() };
     let (sync_t, _) = drv.read(&data, &Delivery::Plain, &c.doc, &opts);
@@ -150,6 +164,7 @@ fn check_reader(name: &'static str, c: &Case) -> Verdict {
         .label_if(damaged, "damaged-input")
         .label_if(kind_differs, "same-stage-different-error-kind(not asserted)")
         .label_if(!damaged, "valid-input")
+        .label_if(matches!(c.damage, Damage::EmptyMember(_)) && drv.is_bgzf(), "empty-member-mid-file")
         .label_if(drivers::records_of(&sync_t).len() >= 2, "records>=2")
         .label_if(c.workers > 1, "workers>1"))
 }
@@ -230,9 +245,9 @@ pub fn property() -> Property {
         let name: &'static str = name;
         assert!(has_async_reader(name));
         let (q, t) = match name {
-            "cram" => (100, 3000),
-            "bgzf" => (120, 3000),
-            _ => (200, 6000),
+            "cram" => (500, 6000),
+            "bgzf" => (500, 6000),
+            _ => (1200, 16000),
         };
         subs.push(
             ClosureSub::<Case> {
@@ -246,10 +261,12 @@ pub fn property() -> Property {
                     } else {
                         d.doc(tier)
                     };
+                    // (for files that are not BGZF the last alternative leaves the file as it is)
                     let damage = prop_oneof![
                         5 => Just(Damage::None),
                         1 => (0u16..=1000).prop_map(Damage::Truncate),
                         1 => (0u16..1000, any::<u8>()).prop_map(|(p, x)| Damage::Flip(p, x)),
+                        2 => (0u16..=1000).prop_map(Damage::EmptyMember),
                     ];
                     (doc, script(), 1u8..=8, damage).prop_map(|(doc, script, workers, damage)| Case { doc, script, workers, damage }).boxed()
                 }),
@@ -265,9 +282,9 @@ pub fn property() -> Property {
         let name: &'static str = name;
         assert!(has_async_writer(name));
         let (q, t) = match name {
-            "cram" => (80, 2500),
-            "bgzf" => (100, 2500),
-            _ => (160, 5000),
+            "cram" => (400, 5000),
+            "bgzf" => (400, 5000),
+            _ => (800, 12000),
         };
         subs.push(
             ClosureSub::<Case> {
